@@ -26,12 +26,32 @@ pub fn run_dir_case(case: &Case, ctx: &Ctx, info: &mut CaseInfo) -> Result<(DirM
         info.class(c);
     }
     let refuse_ok = unrepresentable_tail(&model);
+    // an array longer than 0xFFFFFF bytes cannot be represented (3-byte length field): creation has
+    // to refuse it (today: an assertion), or to store it unaltered - never something else
+    let oversized = model.stores.iter().any(|s| s.entries.iter().any(|e| e.vals.values().any(|v| matches!(v, crate::indep::DVal::A(a) if a.len() > 0xFF_FFFF))));
     match case.packaging {
         None => {
             info.class("driver:bare");
             let path = ctx.path("d.jbkd");
             let _ = std::fs::remove_file(&path);
-            let bounds = match create_directory_pack(&model, &path) {
+            let created = if oversized {
+                info.class("oversized-array");
+                match std::panic::catch_unwind(std::panic::AssertUnwindSafe(|| create_directory_pack(&model, &path))) {
+                    Ok(r) => r,
+                    Err(_) => {
+                        let _ = take_panic();
+                        info.class("creation-refused-unrepresentable");
+                        return Ok((model, None));
+                    }
+                }
+            } else {
+                create_directory_pack(&model, &path)
+            };
+            let bounds = match created {
+                Err(_) if oversized => {
+                    info.class("creation-refused-unrepresentable");
+                    return Ok((model, None));
+                }
                 Ok(b) => b,
                 Err(f) if refuse_ok && f.sig == "dir-write-error" => {
                     info.class("creation-refused-unrepresentable");
@@ -134,6 +154,31 @@ pub fn big_indexed_store_case(n: u32) -> Case {
     }
 }
 
+/// one array of exactly 2^24 bytes (the first length a 3-byte length field cannot say) between two
+/// ordinary entries, in an Array column with an inline prefix
+pub fn oversized_array_case(kind: StoreKind, fixed: u8) -> Case {
+    let rv = |x: u64, base: u8, cut: u32| RawVal { x, arr: ArrSpec { base, cut, tweak: 0 } };
+    Case {
+        packaging: None,
+        dir: DirSpec {
+            vstores: vec![kind],
+            estores: vec![EStoreSpec {
+                common: vec![PropSpec { kind: PKind::Array { fixed, store: 0 }, constant: false }, PropSpec { kind: PKind::UInt, constant: false }],
+                variants: vec![],
+                sort: vec![],
+                entries: vec![
+                    RawEntry { variant: 0, vals: vec![rv(0, 10, 1), rv(1000, 0, 0)] },
+                    RawEntry { variant: 0, vals: vec![rv(0, 11, 0), rv(7, 0, 0)] },
+                    RawEntry { variant: 0, vals: vec![rv(0, 10, 2), rv(1001, 0, 0)] },
+                ],
+                windows: vec![Win::Whole],
+            }],
+            linked: false,
+            index_meta: false,
+        },
+    }
+}
+
 /// more than 1024 distinct values in a store (the parallel duplicate search of the indexed store),
 /// followed by entries duplicating early, middle and late values
 pub fn store_with_late_duplicates(kind: StoreKind, fixed: u8, n: u32) -> Case {
@@ -216,6 +261,8 @@ impl Property for C02 {
             store_with_late_duplicates(StoreKind::Indexed, 2, 2100),
             store_with_late_duplicates(StoreKind::Plain, 0, 1300),
             store_with_late_duplicates(StoreKind::Plain, 3, 2100),
+            oversized_array_case(StoreKind::Plain, 2),
+            oversized_array_case(StoreKind::Indexed, 5),
         ];
         if tier == Tier::Thorough {
             v.push(big_indexed_store_case(65535));
